@@ -2,7 +2,10 @@
 # Build the framework from files on disk only (offline).
 set -e
 export CARGO_NET_OFFLINE=true
+mkdir -p /verif/work
 cd /verif/lean && lake build
 cd /verif/harness && cp /repo/Cargo.lock Cargo.lock 2>/dev/null || true
 cd /verif/harness && cargo build --offline --target-dir target-stable --features hooks
+cd /verif/harness && cargo +nightly build --offline --target-dir target-nightly --features hooks,nightly
+clang -shared -fPIC -O1 -o /verif/work/mlock_fail.so /verif/interpose/mlock_fail.c -ldl
 echo setup-ok
